@@ -30,6 +30,19 @@ theorem rxnRate_spec (c : σ → R) (r : Reaction σ R) (keys : List σ) (s : σ
       else none :=
   dget?_rxnRate c r keys s
 
+/-- **`Reaction.rate(..., ratex=x)` with a number `x`**: the given number replaces the evaluated rate expression; every
+    requested substance gets `x · (prod s − reac s + inactProd s − inactReac s)`, and `Reaction.rate` itself is the case
+    `x = k·∏c^ν`.  **Named rate constants** (`param` a string, or `'k'` in a reaction line): the constant is `variables[name]`
+    (`resolveParam`), a missing name is the `KeyError`. -/
+theorem rate_with_given_ratex (x : R) (c : σ → R) (r : Reaction σ R) (keys : List σ) (s : σ) (vars : List (σ × R)) (name : σ) :
+    (dget? (rxnRateOf x r keys) s = if s ∈ keys then some (x * ((netStoich r s : ℤ) : R)) else none) ∧
+      rxnRate c r keys = rxnRateOf (r.param * activeConcProd c r) r keys ∧
+      (resolveParam vars (Param.key name) = none ↔ name ∉ dkeys vars) ∧
+      (∀ k, resolveParam vars (Param.const k : Param σ R) = some k) := by
+  refine ⟨?_, rfl, dget?_eq_none_iff, fun _ => rfl⟩
+  unfold rxnRateOf
+  rw [dget?_dictOf_map]
+
 /-- The returned dict never repeats a key, holds exactly the requested keys, and — when the requested keys are
     distinct — lists them in the requested order. -/
 theorem rxnRate_keys (c : σ → R) (r : Reaction σ R) (keys : List σ) :
